@@ -39,7 +39,7 @@ def splitStep (s : SplitSt) (c : Nat) (nxt : Option Nat) : SplitSt :=
       else if c == 34 && s.isBackquotePrev then { s with ret := s.ret ++ [s.x ++ [c]], x := [] }
       else if c == 34 && !s.isString then { s with ret := s.ret ++ [s.x], x := [c], isString := true }
       else if c == 34 && s.isString then { s with ret := s.ret ++ [s.x ++ [c]], x := [], isString := false }
-      else if c == 47 && nxt == some 47 && !s.isString then { s with isComment := true }
+      else if c == 47 && nxt == some 47 && !s.isString then { s with isComment := true, ret := s.ret ++ [s.x], x := [] }  -- the comment ends the piece before it (repair D19)
       else if !s.isString then
         if ident != identPrev then { s with ret := s.ret ++ [s.x], x := [c] }
         else { s with x := s.x ++ [c] }
